@@ -259,6 +259,11 @@ func Verify(pub *PublicKey, hash []byte, r, s *big.Int) bool {
  */
 func Encrypt(pub *PublicKey, data []byte, random io.Reader, mode int) ([]byte, error) {
 	length := len(data)
+	if length == 0 {
+		// the KDF output for an empty message is vacuously "all zero", so the
+		// retry loop below would never end
+		return nil, errors.New("Encrypt: plaintext is empty")
+	}
 	for {
 		c := []byte{}
 		curve := pub.Curve
